@@ -151,6 +151,14 @@ func renderOne(o Op) string {
 		return "unalias " + o.Name
 	case "funcdef":
 		return fmt.Sprintf("%s() { echo %d; }", o.Name, o.BodyN)
+	case "setstr":
+		switch o.N {
+		case 1: // arithmetic assignment (numeric value)
+			return "(( " + o.Name + " = " + o.Src + " ))"
+		case 2:
+			return "for " + o.Name + " in " + q(o.Src) + "; do :; done"
+		}
+		return "read -r " + o.Name + " <<< " + q(o.Src)
 	case "setopt":
 		name := OptNames[o.Opt]
 		if o.Opt < 7 {
@@ -291,6 +299,9 @@ func (g *Gen) VarOp() Op {
 	case 7, 8:
 		return Op{Op: "assign", Name: name, HasIdx: true, Idx: g.idx(), App: g.p(3), Rhs: &Rhs{Kind: "str", S: g.pick(values)}}
 	case 9:
+		if g.p(2) {
+			return g.SetStr(name)
+		}
 		return Op{Op: "unset", Name: name}
 	case 10, 11:
 		return Op{Op: "unsetelem", Name: name, Idx: g.idx()}
@@ -410,7 +421,9 @@ func (g *Gen) Targeted() (Op, Op) {
 		arr = g.arrRhs()
 	}
 	pre := Op{Op: "assign", Name: name, Rhs: arr}
-	switch g.R.IntN(6) {
+	switch g.R.IntN(7) {
+	case 6:
+		return pre, g.SetStr(name)
 	case 0, 1:
 		return pre, Op{Op: "assign", Name: name, App: true, Rhs: &Rhs{Kind: "str", S: g.pick(values)}}
 	case 2:
@@ -450,4 +463,13 @@ func (g *Gen) Undo(k int) (Op, Op) {
 		return Op{Op: "setparams", Args: []string{"p", "q"}}, Op{Op: "shift", N: 1}
 	}
 	return Op{Op: "cd", Path: g.Dirs[2]}, Op{Op: "cd", Path: g.Dirs[1]}
+}
+
+// SetStr: an operation that ends in Runner.setVar(name, string): read, arithmetic assignment, for.
+func (g *Gen) SetStr(name string) Op {
+	k := g.R.IntN(3)
+	if k == 1 {
+		return Op{Op: "setstr", Name: name, N: 1, Src: g.pick([]string{"7", "0", "42"})}
+	}
+	return Op{Op: "setstr", Name: name, N: k, Src: g.pick(values)}
 }
